@@ -1,7 +1,10 @@
 #!/bin/sh
-# Build the simulator offline from files on disk, then self-test it on a small sample.
+# Build the simulator offline from files on disk, then self-test it on a small sample
+# (every family, each seed twice: identical event hashes).
 set -eu
-mkdir -p /verif/target /verif/evidence /verif/replays
-cd /verif/sim
-CARGO_NET_OFFLINE=true cargo build --release --offline 2>&1 | tail -n 3
-/verif/target/release/circ-sim selftest
+HERE="$(cd "$(dirname "$0")" && pwd)"
+export VERIF_HOME="$HERE" CARGO_TARGET_DIR="$HERE/target" CARGO_NET_OFFLINE=true
+mkdir -p "$HERE/target" "$HERE/evidence" "$HERE/replays"
+cd "$HERE/sim"
+cargo build --release --offline 2>&1 | tail -n 3
+"$HERE/target/release/circ-sim" selftest 8
